@@ -360,6 +360,19 @@ class CommandPipeline:
         if stderr is not None and not isinstance(stderr, self.nonblocking):
             stderr = NonBlockingFDReader(stderr.fileno(), timeout=timeout)
         # read from process while it is running
+        # A threaded Popen appends to its in-memory buffers from its own
+        # thread with tell / seek-to-end / write / seek-back under
+        # ``proc.lock``. Reading between the tell and the seek-back would
+        # have the read position rewound and the same bytes delivered
+        # twice, so reads of those buffers take the same lock.
+        buflock = getattr(proc, "lock", None)
+
+        def readlines(handle, hint=-1):
+            if buflock is None:
+                return safe_readlines(handle, hint)
+            with buflock:
+                return safe_readlines(handle, hint)
+
         check_prev_done = len(self.procs) == 1
         prev_end_time = None
         i = j = cnt = 1
@@ -387,12 +400,12 @@ class CommandPipeline:
             # ensures that output already produced by the last process
             # (e.g. echo) is captured in self.lines regardless.
             _vh.point("main.before_read")
-            stdout_lines = safe_readlines(stdout, 1024)
+            stdout_lines = readlines(stdout, 1024)
             i = len(stdout_lines)
             _vh.point("main.read", n=sum(map(len, stdout_lines)), final=False)
             if i != 0:
                 yield from stdout_lines
-            stderr_lines = safe_readlines(stderr, 1024)
+            stderr_lines = readlines(stderr, 1024)
             j = len(stderr_lines)
             if j != 0:
                 self.stream_stderr(stderr_lines)
@@ -444,13 +457,13 @@ class CommandPipeline:
 
         # read from process now that it is over
         _vh.point("main.loop_ended")
-        yield from safe_readlines(stdout)
-        self.stream_stderr(safe_readlines(stderr))
+        yield from readlines(stdout)
+        self.stream_stderr(readlines(stderr))
         proc.wait()
         _vh.point("main.waited")
         self._endtime()
-        yield from safe_readlines(stdout)
-        self.stream_stderr(safe_readlines(stderr))
+        yield from readlines(stdout)
+        self.stream_stderr(readlines(stderr))
         if self.captured == "object":
             self.end(tee_output=False)
 
